@@ -252,6 +252,12 @@ def foreign_ops(effs, expected=()):
 
 
 # ------------------------------------------------------------------ coordinates carried through xarray's coordinate API
+class BecomesDataset(Unmodelled):
+    """xarray semantics, not a gap of the model: DataArray.reset_coords(drop=False) returns a Dataset (the coordinates become
+    data variables next to the array).  Checks that know what must come out of the expression may report it; everywhere else
+    it is a missing verdict like any other Unmodelled."""
+
+
 def coord_tracking_models():
     """Method / attribute models under which a modelled DataArray carries its coordinates (attrs['coords']: name -> dims,
     an index coordinate being one named like a dimension) through xarray's coordinate API."""
@@ -269,7 +275,7 @@ def coord_tracking_models():
 
     def reset_coords(ev, recv, args, kw, node):
         if kw.get("drop") is not True and not (len(args) > 1 and args[1] is True):
-            raise Unmodelled("reset_coords without drop=True turns the array into a dataset", node)
+            raise BecomesDataset("reset_coords without drop=True turns the array into a dataset", node)
         cur = coords_of(recv)
         names = names_of(args[0]) if args and args[0] is not None else [k for k in cur if k not in recv.attrs.get("dims", ())]
         return recv.with_eff(("reset_coords", tuple(args), tuple(sorted(kw.items()))), coords={k: v for k, v in cur.items() if k not in names})
